@@ -55,6 +55,9 @@ fixed("C01", "C01-interface-field-empty-fragment", "f1e91e2", "{ named { ... on 
 known("C01", "C01-typename-aliased-in-interface-field", ["interface-field", "typename", "alias"], r"^diff:(MISSING <field>|EXTRA __typename)$",
       "inside an interface-typed field whose selection is rewritten into per-type fragments an aliased __typename is replaced by the plain helper: the alias key is missing and __typename appears instead (before fix f1e91e2 these operations failed with an invalid sub-request)",
       witness="{ named { a: __typename ... on N3 { size } } }")
+known("C01", "C01-explicit-id-on-interface-next-to-fragment", ["interface-field-owned-per-implementation", "explicit-id", "frag-inline-typed"], r"^diff:MISSING id$",
+      "an interface that declares id itself: the client's id selected on the interface next to a per-type fragment is treated like the helper id the planner puts into that fragment and scrubbed for that type (a repair that skips the registration when a sibling selects the field breaks TestUnionPlanUnionPartialScrubFields: the sibling test looks into the fragments of other types too)",
+      witness="{ usrs { ... on UA { uname } id } }")
 known("C01", "C01-node-typed-field", ["node-interface-field"], r"^(diff:(MISSING|EXTRA) (id|__typename|<field>)|errors: INVALID SUBREQUEST: Unknown type \"<x>\"\.)$",
       "a field whose declared type is the Node interface itself is planned like the root node() entry point: plain fields / aliases next to fragments are dropped or leak helpers",
       witness="{ anyNode { ... on N2 { title } id } }")
@@ -96,6 +99,12 @@ fixed("C07", "C07-variable-in-custom-scalar-literal", "2415b59", "query ($a: Str
 fixed("C02", "C02-interface-fragment-nested-siblings", "dec1e2a", "{ things { ... on I { a } } } (a fragment on the interface of its field): the fragment of the second possible type contained the fragment of the first (... on IB { a ... on IA { a } }), the service rejected the sub-request: Fragment cannot be spread here as objects of type IB can never be of type IA")
 fixed("C01", "C01-untyped-fragment-in-union-field", "491167a", "{ us { ... { __typename } } } with a union-typed field: answered with 'unable to find type  in schema' (the empty type condition was looked up in the schema)")
 fixed("C01", "C01-directive-on-fragment-on-union", "160d54d", "{ us { ... on U @skip(if: true) { __typename } } } and { us { ... @skip(if: true) { __typename } } } answered __typename: the fragment on the abstract type of its field is dissolved into the parent and its directives were dropped")
+fixed("C07", "C07-response-key-node-below-child-step", "fb3ac71", "{ n2 { owner { node: n2s { title } } } } (also a stitched type with a real field called node, Relay edges): the insertion points below the key node were looked up in the child step's selection set, which starts with the planner's own node(id: $id) wrapper; the wrapper has no type: nil dereference at executor/result.go:150 in a worker goroutine, the process died (reported by a round-6 agent on the unchanged tree)")
+fixed("C09", "C09-upload-answer-without-data", "e01711f", "a service answering a multipart (upload) sub-request with {}, {\"data\": null} or an empty errors list and no data: the gateway returned {\"data\":{}} without errors (the guard of a6df212 covered the JSON batch path only; reported by a round-6 agent)")
+fixed("C14", "C14-cache-key-ignores-variable-definitions", "db0edef", "query T($n: String! = \"Query\") { __type(name: $n) { name } } then query T($n: String!) {...} without a value: one cache key, the cached step answered with the first operation's default; likewise two operations declaring a variable used inside a custom scalar literal with different types (reported by round-6 agents)")
+fixed("C18", "C18-duplicate-start-id", "1999e44", "a start with an id that is still in use overwrote the entry of the running subscription: nothing could stop it any more, its upstream connection and goroutines leaked (reported by a round-6 agent)")
+fixed("C17", "C17-upstream-error-object-swallowed", "2603204", "{\"type\":\"error\",\"id\":\"1\",\"payload\":{\"message\":\"boom\"}} from the service ended the subscription silently, the client never heard of the error (only a list payload was forwarded; reported by a round-6 agent)")
+fixed("C05", "C05-node-lookup-with-extra-argument", "03099a6", "Query.node(id: ID!, lang: String = \"en\"): Node in one service and the plain lookup in another: accepted silently in one order of the service list, refused in the other")
 fixed("C13", "C13-introspection-list-order", "9452942", "{ __schema { types { kind } } } / { types { n: name } }: the lists under __schema were sorted by the `name` key of the answer only; without it they came back in map iteration order")
 fixed("C19", "C19-literal-forwards-variable", "fe55c44", 'mutation ($f: Upload) { upload(f: $f) plain1(s: "f") }: the step variable list was filled with the raw text of every argument value; a literal reading like a variable name made the step forward that variable (here: the file) to a service which does not use it')
 fixed("C15", "C15-default-named-roots-lost", "5e01f44", "schema { query: RootQuery mutation: Mutation }: the reconstruction printed a schema block with the renamed root only and lost the default-named Mutation (Subscription) root")
